@@ -281,6 +281,18 @@ def kernel_queries(db, contracts, consts):
         if name in kernels.ASSUMED:
             skipped.append((name, 'contract ASSUMED, not enforced: ' + kernels.ASSUMED[name]))
             continue
+        if name in ('decay0_beta', 'decay0_beta1', 'decay0_beta2', 'decay0_beta_1fu'):
+            # wrapper against the worker's contract + the worker's rejection loop through the label machine
+            import betak
+            try:
+                q = betak.build_wrapper_query(db, contracts, consts, name)
+                qs.append(Query('kernel/%s' % name, q['c'], meta=q['meta'], timeout=900))
+                for wq in betak.build_worker_queries(db, contracts, consts, name):
+                    qs.append(Query('kernel/%s/seg@%s' % (wq['meta']['function'], wq['meta']['cut'] or 'entry'), wq['c'], meta=wq['meta'], timeout=900,
+                                    checks=['--no-standard-checks', '--bounds-check', '--pointer-check', '--conversion-check', '--div-by-zero-check', '--signed-overflow-check']))
+            except bx2c.Unsupported as e:
+                skipped.append((name, 'NOT COVERED: ' + str(e)[:300]))
+            continue
         if name in kernels.STUB_ENFORCE:
             try:
                 q = kernels.build_stub_enforce_query(db, contracts, consts, name)
@@ -776,7 +788,7 @@ def prop_l3(prop, tier, seed):
             skipped += sk
     results = run_all(queries)
     return evaluate(prop, queries, results, known, tier, seed, t0, skipped=skipped, selfcheck=sc,
-                    assumptions=ASSUMPTIONS.get(prop, []))
+                    assumptions=ASSUMPTIONS.get(prop, []) + BETAK_ASSUMPTIONS)
 
 
 def prop_genbb(prop, tier, seed):
@@ -857,7 +869,7 @@ def prop_c07(prop, tier, seed):
                 print('VIOLATION property=C07 replay=%s obligation="frame :: %s" detail=%s no-failing-input-found' % (rp, d, detail[:3]))
                 rc_static = 1
             fl.append({'function': fn, 'fact': fact, 'detail': detail})
-    rc = evaluate(prop, queries, results, known, tier, seed, t0, skipped=skipped + sk2, selfcheck=sc, assumptions=ASSUMPTIONS['C07'],
+    rc = evaluate(prop, queries, results, known, tier, seed, t0, skipped=skipped + sk2, selfcheck=sc, assumptions=ASSUMPTIONS['C07'] + BETAK_ASSUMPTIONS,
                   extra_cov={'static_frame_facts': len(facts), 'static_frame_facts_holding': sum(1 for f_ in facts if f_[2]), 'static_frame_facts_failing': fl})
     return rc if rc != 0 else rc_static
 
@@ -889,6 +901,9 @@ def prop_rel(prop, tier, seed):
                                'arithmetic': 'uninterpreted + - * / and libm (equal under every interpretation => equal under IEEE); literals within 5e-6 relative are one constant'})
 
 
+BETAK_ASSUMPTIONS = [
+    'decay0_beta/beta1/beta2/beta_1fu: contract enforced in two steps (wrapper against the worker contract; worker through the label machine); deviate*x abstracted to [0,x]; tgold/funbeta* return any double; the ghost deviate counter does not wrap (fewer than 2^47 rejection rounds); termination of the rejection loop is almost-sure only and not claimed',
+]
 BBK_ASSUMPTIONS = [
     'decay0_bb preconditions = what genbbsub establishes: mode 1..20, 0 < Qbb <= 4.3 MeV, e0 > 0, window min < max as decay0_generator enforces (tied to the level table by the C06 obligations, not re-proved here)',
     'decay0_bb abstraction: deviate * x is ANY value between 0 and x (sound over-approximation; the exact product defeats the SAT back end)',
